@@ -119,6 +119,10 @@ func (o *matrixSelector) Next(ctx context.Context) ([]model.StepVector, error) {
 
 	vectors := o.vectorPool.GetVectorBatch()
 	ts := o.currentStep
+	// Emit one vector per step even when the selector matches no series.
+	for currStep, stepTs := 0, ts; currStep < o.numSteps && stepTs <= o.maxt; currStep, stepTs = currStep+1, stepTs+o.step {
+		vectors = append(vectors, o.vectorPool.GetStepVector(stepTs))
+	}
 	for i := 0; i < len(o.scanners); i++ {
 		var (
 			series   = o.scanners[i]
